@@ -1175,6 +1175,15 @@ func (fc *fnCtx) applyIfaceContract(st *State, x *ssa.Call, c *Contract, recv Va
 			fc.assume(st, fmt.Sprintf("(and (< (sl.base %s) %s) (=> (< (if.val %s) %s) (< (sl.base %s) %s)))", r.T, st.alloc, recv.T, fc.top.alloc0, r.T, fc.top.alloc0))
 		}
 		results = []Val{r}
+	} else if c.Pure && sig.Results().Len() > 1 {
+		// several results: one uninterpreted function per result (Method#0, Method#1, ...)
+		for i := 0; i < sig.Results().Len(); i++ {
+			rt := sig.Results().At(i).Type()
+			appi := fc.ifaceApp(recv, fmt.Sprintf("%s.r%d", x.Call.Method.Name(), i), args, rt)
+			r := Val{T: fc.defs.Define(fmt.Sprintf("%s.r%d", x.Name(), i), fc.S().SortOf(rt), appi.T), Ty: rt}
+			fc.assume(st, fc.S().RangeFact(rt, r.T, 1))
+			results = append(results, r)
+		}
 	} else {
 		for i := 0; i < sig.Results().Len(); i++ {
 			results = append(results, fc.freshVal(st, x.Call.Method.Name()+".r", sig.Results().At(i).Type()))
